@@ -5,7 +5,7 @@ import re
 from ..core import AnalysisError
 from .. import pyfront as P
 from .. import pycfg
-from .. import rx
+from .. import rx, gsa, strfrag
 
 EXPLANATION = ('The ldd pattern is folded from the source, parsed with CPython\'s own regex parser, turned into '
                'an automaton with the library name as an opaque symbol, and compared for LANGUAGE EQUIVALENCE '
@@ -45,10 +45,12 @@ def check(ctx):
     if len(f.args.args) != 1:
         raise AnalysisError('_ldd_library_pattern: expected one parameter')
     param = f.args.args[0].arg
-    rets = [n for n in P.walk_no_nested(f) if isinstance(n, ast.Return)]
-    if len(rets) != 1 or not isinstance(rets[0].value, ast.Call) or P.call_name(rets[0].value) != 're.compile':
+    LP = gsa.Summary(py, 'shlibs', '_ldd_library_pattern', inline_only=())
+    rets = [n for g_, n in LP.returns]
+    if len(rets) != 1 or not isinstance(rets[0], ast.Call) or P.call_name(rets[0]) != 're.compile':
         raise AnalysisError('_ldd_library_pattern: expected a single `return re.compile(...)`')
-    call = rets[0].value
+    call = rets[0]
+    call.lineno = f.lineno
     pat = call.args[0]
     flags = 0
     if len(call.args) > 1:
@@ -56,35 +58,37 @@ def check(ctx):
     for k in call.keywords:
         if k.arg == 'flags':
             flags = py.fold(k.value, m)
-    # template % re.escape(param)
-    template = None
-    esc_ok = False
-    if isinstance(pat, ast.BinOp) and isinstance(pat.op, ast.Mod):
-        template = py.try_fold(pat.left, m)
-        arg = pat.right
-        if isinstance(arg, ast.Tuple) and len(arg.elts) == 1:
-            arg = arg.elts[0]
-        esc_ok = isinstance(arg, ast.Call) and P.call_name(arg) == 're.escape' and len(arg.args) == 1 \
-            and isinstance(arg.args[0], ast.Name) and arg.args[0].id == param
-    elif isinstance(pat, ast.JoinedStr):
-        parts = []
-        esc_ok = True
-        for v in pat.values:
-            if isinstance(v, ast.Constant):
-                parts.append(v.value.replace('%', '%%'))
+    # the pattern text: literal pieces around the (escaped) library name
+    parts = []
+    esc_ok = True
+    n_slots = 0
+    for seq in strfrag.sequences(strfrag.flatten(pat))[:1]:
+        for fr_ in seq:
+            if fr_[0] == 'const':
+                parts.append(fr_[1])
+            elif fr_[0] == 'expr':
+                v_ = py.try_fold(fr_[1], m)
+                if isinstance(v_, str):
+                    parts.append(v_)
+                    continue
+                a_ = fr_[1]
+                n_slots += 1
+                okslot = isinstance(a_, ast.Call) and P.call_name(a_) == 're.escape' and len(a_.args) == 1 and isinstance(a_.args[0], ast.Name) and a_.args[0].id == param
+                esc_ok = esc_ok and okslot
+                if not okslot and not (isinstance(a_, ast.Name) and a_.id == param):
+                    raise AnalysisError('_ldd_library_pattern: pattern contains a non-constant piece other than the library name: %s' % gsa._unparse(a_))
+                parts.append(chr(NAME))
             else:
-                a = v.value
-                ok = isinstance(a, ast.Call) and P.call_name(a) == 're.escape' and len(a.args) == 1 \
-                    and isinstance(a.args[0], ast.Name) and a.args[0].id == param
-                esc_ok = esc_ok and ok
-                parts.append('%s')
-        template = ''.join(parts)
-    if not isinstance(template, str) or template.count('%s') != 1:
+                raise AnalysisError('_ldd_library_pattern: pattern is not a concatenation of constant pieces and the library name')
+    if n_slots != 1:
+        raise AnalysisError('_ldd_library_pattern: pattern is not a constant template with one slot for the library name')
+    template = ''.join(parts).replace(chr(NAME), '%s')
+    if template.count('%s') != 1:
         raise AnalysisError('_ldd_library_pattern: pattern is not a constant template with one %s slot')
     r1.check(esc_ok and m.imports.get('re') == ('ext:re', None), 'library name is regex-escaped', rel, call.lineno,
              'the requested name is substituted into the pattern without re.escape(): names with regex '
              'metacharacters (libstdc++, gtk+-2.0) change the pattern', detail='re.escape(%s)' % param)
-    pattern = template % chr(NAME)
+    pattern = ''.join(parts)
     try:
         got = rx.Language(pattern, flags, 'match', symbols=[NAME])
         ref = rx.Language(REFERENCE, 0, 'match', symbols=[NAME])
@@ -103,107 +107,71 @@ def check(ctx):
     r1.exhaustive = True
     # the pattern is used with .match() on whitespace-split words of each line
     g = py.func('shlibs', 'resolve_from_ldd_output')
-    mcalls = [c for c in P.calls_in(g) if isinstance(c.func, ast.Attribute) and c.func.attr in ('match', 'search', 'fullmatch', 'findall')]
-    r1.check(len(mcalls) == 1 and mcalls[0].func.attr == 'match', 'pattern applied with match()', rel, g.lineno,
-             'pattern is applied with %s' % [c.func.attr for c in mcalls], detail=[P.src(c) for c in mcalls])
+    G = gsa.Summary(py, 'shlibs', 'resolve_from_ldd_output', inline_module_funcs=True, opaque=('_ldd_library_pattern',))
+    mcalls = [e for e in G.effects if e.kind == 'call' and re.search(r'\.(match|search|fullmatch|findall)$', e.target)]
+    r1.check(len(mcalls) >= 1 and all(e.target.endswith('.match') for e in mcalls), 'pattern applied with match()', rel, g.lineno,
+             'pattern is applied with %s' % [e.target.rsplit('.', 1)[-1] for e in mcalls], detail=[e.value for e in mcalls])
 
     # ---------------------------------------------------------------- R2 matching loop
     r2 = ctx.rule('R2', 'header lines skipped; first match wins; one file per request; base name reported', floor=7)
-    # patterns dict: name -> _ldd_library_pattern(name)
-    pat_store = [(t, v, st) for t, v, st in P.stores_in(g) if isinstance(t, ast.Subscript) and isinstance(v, ast.Call)
-                 and P.call_name(v) == '_ldd_library_pattern']
+    pat_store = [e for e in G.effects if e.kind == 'store' and re.match(r'^\w+\[\w+\]$', e.target) and e.value.startswith('_ldd_library_pattern(')]
     if len(pat_store) != 1:
         raise AnalysisError('resolve_from_ldd_output: patterns[...] = _ldd_library_pattern(...) not found')
-    t, v, st = pat_store[0]
-    pname = P.src(t.value)
-    r2.check(P.src(t.slice) == P.src(v.args[0]), 'pattern keyed by its library', rel, st.lineno,
-             'pattern for %s stored under key %s' % (P.src(v.args[0]), P.src(t.slice)))
-    # line loop
-    line_loops = [n for n in P.walk_no_nested(g) if isinstance(n, ast.For) and 'splitlines' in P.src(n.iter)]
-    if len(line_loops) != 1:
-        raise AnalysisError('resolve_from_ldd_output: loop over output.splitlines() not found')
-    ll = line_loops[0]
-    r2.check(P.src(ll.iter) == 'output.splitlines()' and isinstance(ll.target, ast.Name), 'lines in listed order', rel, ll.lineno,
-             'lines are not walked in the order listed: %s' % P.src(ll.iter))
-    lv = ll.target.id
-    first = ll.body[0]
-    ok = isinstance(first, ast.If) and P.src(first.test) == "%s.endswith(':')" % lv and len(first.body) == 1 \
-        and isinstance(first.body[0], ast.Continue) and not first.orelse
-    r2.check(ok, 'header line skipped', rel, ll.lineno, 'lines ending in ":" (the binary\'s own name) are not skipped before matching')
-    mc = mcalls[0] if mcalls else None
-    if mc is None:
+    ps = pat_store[0]
+    pname, pkey = re.match(r'^(\w+)\[(\w+)\]$', ps.target).groups()
+    r2.check(ps.value == '_ldd_library_pattern(%s)' % pkey, 'pattern keyed by its library', rel, ps.line, 'pattern %s stored under key %s' % (ps.value, pkey))
+    if not mcalls:
         raise AnalysisError('no match call')
-    # match inside: for word in line.split(): for library, pattern in patterns.items():
-    loops = []
-    n = P.parent(mc)
-    while n is not None and n is not ll:
-        if isinstance(n, ast.For):
-            loops.append(n)
-        n = P.parent(n)
-    r2.check(len(loops) == 2 and P.src(loops[1].iter) == '%s.split()' % lv and P.src(loops[0].iter) == '%s.items()' % pname,
-             'words then outstanding patterns', rel, mc.lineno,
-             'match is not tried for every whitespace-separated word against every outstanding pattern: %s'
-             % [P.src(l.iter) for l in loops], detail=[P.src(l.iter) for l in loops])
-    word = loops[1].target.id if len(loops) == 2 and isinstance(loops[1].target, ast.Name) else None
-    r2.check(word is not None and [P.src(a) for a in mc.args] == [word], 'matched text is the word', rel, mc.lineno,
-             'match() is applied to %s' % [P.src(a) for a in mc.args])
-    # on match: delete the pattern, append m.group(), break
-    mvar = None
-    stm = P.enclosing_stmt(mc)
-    if isinstance(stm, ast.Assign) and isinstance(stm.targets[0], ast.Name):
-        mvar = stm.targets[0].id
-    hit = None
-    if mvar and len(loops) == 2:
-        for s_ in loops[0].body:
-            if isinstance(s_, ast.If) and P.src(s_.test) in (mvar, '%s is not None' % mvar):
-                hit = s_
-    if hit is None:
-        raise AnalysisError('resolve_from_ldd_output: `if m:` block not found')
-    body = [P.src(s_) for s_ in hit.body]
-    lib = loops[0].target.elts[0].id if isinstance(loops[0].target, ast.Tuple) else '?'
-    r2.check('del %s[%s]' % (pname, lib) in body, 'satisfied request removed', rel, hit.lineno,
-             'a satisfied request stays outstanding (later files could replace the first listed one): %s' % body)
-    appends = [c for c in ast.walk(hit) if isinstance(c, ast.Call) and isinstance(c.func, ast.Attribute) and c.func.attr == 'append']
-    r2.check(len(appends) == 1 and P.src(appends[0].args[0]) in ('%s.group()' % mvar, '%s.group(0)' % mvar, word),
-             'whole matched word recorded', rel, hit.lineno, 'recorded value is %s' % [P.src(a.args[0]) for a in appends])
-    r2.check(isinstance(hit.body[-1], ast.Break), 'one file satisfies one request', rel, hit.lineno,
+    outp = [a_.arg for a_ in g.args.args][-1]
+    for mc in mcalls:
+        lp = mc.loops
+        okl = len(lp) == 3 and lp[0] == '%s.splitlines()' % outp and re.match(r'^\w+\.split\(\)$', lp[1]) and lp[2] == '%s.items()' % pname
+        r2.check(lp[:1] == ('%s.splitlines()' % outp,), 'lines in listed order', rel, mc.line, 'lines are not walked in the order listed: %s' % (lp[:1],))
+        r2.check(bool(okl), 'words then outstanding patterns', rel, mc.line,
+                 'match is not tried for every whitespace-separated word against every outstanding pattern: %s' % (lp,), detail=list(lp))
+        linev = lp[1].split('.')[0] if len(lp) > 1 else '?'
+        HDR = r"^%s\.endswith\(':'\)$" % re.escape(linev)
+        r2.check(gsa.impossible(G, mc, [(HDR, True)]) and gsa.allowed(G, mc, [(HDR, False), (r'^@', True)]), 'header line skipped', rel, mc.line,
+                 'lines ending in ":" (the binary\'s own name) are not skipped before matching (match reached when %s)' % mc.when()[:160])
+        r2.check(len(mc.args) == 1 and re.match(r'^\w+$', mc.args[0]) and mc.args[0] not in (linev, outp), 'matched text is the word', rel, mc.line, 'match() is applied to %s' % mc.args)
+    # on match: delete the pattern, append the matched word, stop trying patterns for this word
+    dels = [e for e in G.effects if e.kind == 'del' and re.match(r'^%s\[\w+\]$' % re.escape(pname), e.target)]
+    MATCHED = r'\.match\(\w+\)( is None)?$'
+    r2.check(len(dels) >= 1 and all(gsa.impossible(G, e, [(MATCHED, 'A')]) and ('%s.items()' % pname) in e.loops for e in dels), 'satisfied request removed', rel, dels[0].line if dels else g.lineno,
+             'a satisfied request stays outstanding (later files could replace the first listed one): deletions %s' % [(e.target, e.when()[:100]) for e in dels])
+    appends = [e for e in G.effects if e.kind == 'call' and e.target.endswith('.append') and e.args and (re.search(r'\.match\(\w+\)\.group\(0?\)$', e.args[0]) or
+                                                                                                         (mcalls and e.args[0] == mcalls[0].args[0]))]
+    r2.check(len(appends) >= 1 and all(gsa.impossible(G, e, [(MATCHED, 'A')]) for e in appends), 'whole matched word recorded', rel, appends[0].line if appends else g.lineno,
+             'recorded values: %s' % [e.value for e in G.effects if e.kind == 'call' and e.target.endswith('.append')])
+    stops = [e for e in G.effects if e.kind in ('break', 'return') and ('%s.items()' % pname) in e.loops]
+    r2.check(bool(dels) and all(any(gsa.implies(d.cond, x.cond) for x in stops) for d in dels), 'one file satisfies one request', rel, dels[0].line if dels else g.lineno,
              'after a match the remaining patterns are still tried against the same file')
-    result_list = P.src(appends[0].func.value) if appends else None
     # base name
     s = py.func('shlibs', 'sanitize_shlib_path')
-    rets_ = [n for n in P.walk_no_nested(s) if isinstance(n, ast.Return)]
-    non_darwin = [r_ for r_ in rets_ if any(x.text() == "not (sys.platform == 'darwin')" for x in P.guards(r_))]
-    r2.check(len(non_darwin) == 1 and P.src(non_darwin[0].value) == 'os.path.basename(lib)', 'reported by base name', rel, s.lineno,
-             'on non-darwin platforms the result is not os.path.basename(lib)')
+    SS = gsa.Summary(py, 'shlibs', 'sanitize_shlib_path', inline_only=())
+    nd = gsa.returns_under(SS, gsa.decide_by([(r"^sys\.platform == 'darwin'$", False)]))
+    r2.check([x[0] for x in nd] == ['os.path.basename(%s)' % SS.P(0)], 'reported by base name', rel, s.lineno, 'on non-darwin platforms the result is %s, not os.path.basename(lib)' % [x[0] for x in nd])
     nl = py.func('shlibs', '_resolve_non_libtool')
-    okm = any(P.src(r_.value) == 'list(map(sanitize_shlib_path, shlibs))' for r_ in P.walk_no_nested(nl) if isinstance(r_, ast.Return)) \
-        and any(P.src(v_) == 'resolve_from_ldd_output(libraries, output)' and P.src(t_) == 'shlibs' for t_, v_, s_ in P.stores_in(nl))
-    r2.check(okm, 'every resolved path sanitised', rel, nl.lineno, 'results of resolve_from_ldd_output are not all passed through sanitize_shlib_path')
+    NL = gsa.Summary(py, 'shlibs', '_resolve_non_libtool', inline_module_funcs=True, opaque=('resolve_from_ldd_output', 'sanitize_shlib_path', '_ldd_library_pattern'))
+    vals = [gsa._unparse(n) for g_, n in NL.returns if 'resolve_from_ldd_output(' in gsa._unparse(n)]
+    okm = len(vals) >= 1 and all(re.match(r'^list\(map\(sanitize_shlib_path, resolve_from_ldd_output\(.*\)\)\)$', v_) or
+                                 re.match(r'^\[sanitize_shlib_path\((\w+)\) for \1 in resolve_from_ldd_output\(.*\)\]$', v_) for v_ in vals)
+    r2.check(okm, 'every resolved path sanitised', rel, nl.lineno, 'results of resolve_from_ldd_output are not all passed through sanitize_shlib_path: %s' % vals)
 
     # ---------------------------------------------------------------- R3 loud failure
     r3 = ctx.rule('R3', 'any unresolved name -> SystemExit naming it; nothing swallows it', floor=4)
-    cfg = pycfg.CFG(g)
-    raises = [n for n in P.walk_no_nested(g) if isinstance(n, ast.Raise)]
-    ok = False
-    msg_ok = False
-    for r_ in raises:
-        gs = [x for x in P.guards(r_) if x.kind == 'if']
-        if len(gs) == 1 and nonempty_test(gs[0].test, pname) is True and isinstance(r_.exc, ast.Call) \
-                and P.call_name(r_.exc) == 'SystemExit':
-            ok = True
-            msg_ok = '%s.keys()' % pname in P.src(r_.exc) or 'join(%s)' % pname in P.src(r_.exc)
+    LEFT = r'^%s$' % re.escape(pname)
+    raises = [e for e in G.effects if e.kind == 'raise' and e.value.startswith('SystemExit(')]
+    ok = any(not e.loops and gsa.impossible(G, e, [(LEFT, False)]) and gsa.allowed(G, e, [(LEFT, True)]) and
+             [a_ for a_ in gsa.atoms(e.cond) if not a_.startswith('@') and not re.match(LEFT, a_) and not re.match(r'^%s$' % re.escape(G.P(0)), a_)] == [] for e in raises)
     r3.check(ok, 'raise SystemExit when requests remain', rel, g.lineno,
-             'there is no `raise SystemExit` guarded exactly by "some requested library is still unresolved" (%s non-empty): %s'
-             % (pname, [[x.text() for x in P.guards(r_)] for r_ in raises]))
+             'there is no `raise SystemExit` reached exactly when some requested library is still unresolved (%s non-empty): %s' % (pname, [e.when()[:120] for e in raises]))
+    msg_ok = any(('%s.keys()' % pname) in e.value or ('join(%s)' % pname) in e.value for e in raises)
     r3.check(msg_ok, 'error names the unresolved libraries', rel, g.lineno, 'the SystemExit message does not list the unresolved names')
-    # every return either is the "nothing requested" early return or is reached only when patterns is empty
-    for ret in [n for n in P.walk_no_nested(g) if isinstance(n, ast.Return)]:
-        gs = [x for x in P.guards(ret) if x.kind in ('if', 'early')]
-        empties = [x for x in gs if (nonempty_test(x.test, pname) is False and x.polarity) or
-                   (nonempty_test(x.test, pname) is True and not x.polarity)]
-        r3.check(bool(empties) and 'for' not in [x.kind for x in P.guards(ret)], 'return only with nothing unresolved', rel, ret.lineno,
-                 'resolve_from_ldd_output can return normally while requested libraries are unresolved: guards=%s'
-                 % [x.text() for x in gs], detail=[x.text() for x in gs])
+    for ret in [e for e in G.effects if e.kind == 'return' and e.fn == 'resolve_from_ldd_output']:
+        early = ret.seq < ps.seq
+        r3.check(not ret.loops and (early or gsa.impossible(G, ret, [(LEFT, True)])), 'return only with nothing unresolved', rel, ret.line,
+                 'resolve_from_ldd_output can return normally while requested libraries are unresolved: returns when %s' % ret.when()[:200], detail=ret.when()[:200])
     # nothing on the way to scanner_main swallows SystemExit
     offenders = []
     for mod in py.all_modules():
@@ -257,14 +225,15 @@ def check(ctx):
              "dlname pattern %r does not accept every file-name character (letters, digits, . _ - +): missing %r"
              % (ptxt, ''.join(missing)), detail={'pattern': ptxt})
     ef = py.func('utils', '_extract_dlname_field')
-    src_ = [P.src(n.value) for n in P.walk_no_nested(ef) if isinstance(n, ast.Return)]
-    r4.check(sorted(src_) == ['None', 'm.groups()[0]'] or sorted(src_) == ['None', 'm.group(1)'], 'dlname capture returned', um.rel, ef.lineno,
+    EF = gsa.Summary(py, 'utils', '_extract_dlname_field', inline_only=())
+    src_ = sorted(set(gsa._unparse(n) for g_, n in EF.returns))
+    r4.check(len(src_) == 2 and 'None' in src_ and any(re.search(r'^_libtool_pat\.search\(.*\)\.(groups\(\)\[0\]|group\(1\))$', x) for x in src_), 'dlname capture returned', um.rel, ef.lineno,
              '_extract_dlname_field returns %s' % src_)
     xf = py.func('utils', 'extract_libtool_shlib')
-    last = [n for n in P.walk_no_nested(xf) if isinstance(n, ast.Return)]
-    last.sort(key=lambda n: n.lineno)
-    r4.check(P.src(last[-1].value) == 'os.path.basename(dlname)', 'libtool result is a base name', um.rel, xf.lineno,
-             'extract_libtool_shlib returns %s' % P.src(last[-1].value))
+    XF = gsa.Summary(py, 'utils', 'extract_libtool_shlib', inline_only=())
+    nd = gsa.returns_under(XF, gsa.decide_by([(r"^platform\.system\(\) == 'Darwin'$", False), (r'^_extract_dlname_field\(.*\) is None$', False)]))
+    r4.check([x[0] for x in nd] == ['os.path.basename(_extract_dlname_field(%s))' % XF.P(0)], 'libtool result is a base name', um.rel, xf.lineno,
+             'extract_libtool_shlib returns %s' % [x[0] for x in nd])
 
 
 def _ancestors(n):
